@@ -135,14 +135,18 @@ def rule_literal_tables(ctx, fx, config):
     ctx.saw(f)
     cmp_ = str_compare_consts(f, fx)
     got = cmp_.get("eq_ignore_ascii_case", set()) | cmp_.get("eq", set())
-    ctx.check(got == BOOL_TABLE, "TABLE", "C06:TABLE:yaml11-bool-literals", "YAML 1.1 boolean literals == documented table (8)",
-              "boolean literal set changed: extra %s, missing %s" % (sorted(got - BOOL_TABLE), sorted(BOOL_TABLE - got)), config, ctx.where(f))
+    # the literals are compared case-insensitively: by eq_ignore_ascii_case, or after an ASCII case fold of the token
+    folds = {last_seg(fx.callee_decl(t)) for g in fx.family(f) for b, t in g.calls() if last_seg(fx.callee_decl(t)) in ("to_ascii_lowercase", "to_ascii_uppercase", "to_lowercase", "to_uppercase", "make_ascii_lowercase", "make_ascii_uppercase")}
+    ctx.check({x.lower() for x in got} == BOOL_TABLE, "TABLE", "C06:TABLE:yaml11-bool-literals", "YAML 1.1 boolean literals == documented table (8)",
+              "boolean literal set changed: extra %s, missing %s" % (sorted({x.lower() for x in got} - BOOL_TABLE), sorted(BOOL_TABLE - {x.lower() for x in got})), config, ctx.where(f))
+    ctx.check(not (folds & {"to_lowercase", "to_uppercase"}) and (bool(cmp_.get("eq_ignore_ascii_case")) or bool(folds)), "TABLE", "C06:TABLE:yaml11-bool-ascii-fold", "case-insensitivity is ASCII-only (eq_ignore_ascii_case / to_ascii_*case)",
+              "parse_yaml11_bool folds case with %s: the full Unicode mapping turns `yeſ` (U+017F) into YES and `oﬀ` (U+FB00) into OFF, so non-ASCII look-alikes are accepted as booleans" % sorted(folds), config, ctx.where(f))
     # which literals give true: the Ok(true) aggregate must be reached exactly from the 4 truthy compares
     truthy = set()
     for b, t in f.calls():
-        if last_seg(fx.callee(t)) == "eq_ignore_ascii_case":
+        if last_seg(fx.callee(t)) in ("eq_ignore_ascii_case", "eq"):
             with f.deep():
-                lit = [s_[1] for s_ in (f.sym_operand(a) for a in t["args"]) if s_[0] == "const"]
+                lit = [s_[1].lower() for s_ in (f.sym_operand(a) for a in t["args"]) if s_[0] == "const" and isinstance(s_[1], str)]
             tgt = t["t"]
             e = switch_edges(f, tgt) if tgt is not None else None
             if e and lit:
@@ -151,7 +155,7 @@ def rule_literal_tables(ctx, fx, config):
                 for ab, i, adt, var, fl, ops, s_ in aggregates(f):
                     if var == "Ok" and ops and ops[0] == ("const", True, "bool") and ab in f.reachable([tt]) and not f.dominates(ff, ab):
                         # reachable from the true edge without passing another compare's false edge
-                        if ab in f.reachable([tt], avoid=[x for x, tx in f.calls() if last_seg(fx.callee(tx)) == "eq_ignore_ascii_case"]):
+                        if ab in f.reachable([tt], avoid=[x for x, tx in f.calls() if last_seg(fx.callee(tx)) in ("eq_ignore_ascii_case", "eq")]):
                             truthy.add(lit[0])
     ctx.check(truthy == {"true", "yes", "y", "on"}, "TABLE", "C06:TABLE:yaml11-bool-polarity", "true/yes/y/on -> true (others false)", "literals yielding `true`: %s" % sorted(truthy), config, ctx.where(f))
     for name in (PS + "scalar_is_nullish", PS + "scalar_is_nullish_for_option"):
